@@ -96,7 +96,7 @@ def probe_throw(rp):
     m = re.search(r"^THROW (\S+)", out, re.M)
     if rc != 0 or not m:
         raise vlib.MachineryError("cannot determine what promise_extra_storage::alloc does when the factory throws: " + out[-500:])
-    return m.group(1)   # released | kept | lost
+    return m.group(1)   # released | kept | lost | replaced (anything but `kept`: the replay against the repaired model tells)
 
 
 def probe_grow(rp):
